@@ -2,16 +2,18 @@
 
 package csidh
 
-// c14Backend reads the two switches: hasBMI2 is tested inside fp511_amd64.s (mul512, MULX or MULQ),
-// hasADXandBMI2 in mulRdcAmd64 (mulBmiAsm or the Go mulGeneric).
-func c14Backend() string {
-	switch {
-	case hasADXandBMI2 && hasBMI2:
-		return "asm-mulx-adx"
-	case hasBMI2:
-		return "asm-mulx"
-	case hasADXandBMI2:
-		return "inconsistent"
+// Read-out of the two switches: hasBMI2 is tested inside fp511_amd64.s (mul512, MULX or MULQ),
+// hasADXandBMI2 in mulRdcAmd64 (mulBmiAsm or the Go mulGeneric). Only this file names them.
+func init() {
+	C14ReadBackend = func() string {
+		switch {
+		case hasADXandBMI2 && hasBMI2:
+			return "asm-mulx-adx"
+		case hasBMI2:
+			return "asm-mulx"
+		case hasADXandBMI2:
+			return "inconsistent"
+		}
+		return "asm-legacy"
 	}
-	return "asm-legacy"
 }
